@@ -18,13 +18,22 @@ field names, types, defaults of FlowRowModel / Edge / Condition / Webhook /
 WhatsAppTemplating and the Edge remap dictionaries. -/
 theorem tables_agree_schema : Gen.flowRowDescr = Ty.descr flowRowTy := by decide +kernel
 
-/-- T1: header remap dictionaries of flowrowmodel.py -/
+/-- T1: header remap tables of flowrowmodel.py, read off the BEHAVIOUR of the remap functions
+(`harness/tables/t07_flowrow.py`).  They are lookups with unique keys (`remap_keys_unique`), so they
+are compared up to order (`Canon.sortP`); the main header and the type column exactly. -/
 theorem tables_agree_remaps :
-    Gen.flowF2H = flowF2H ∧ Gen.flowBasicHeaderDict = flowBasicHeaders ∧
-    Gen.flowRowTypeToMainArg = flowMainArg ∧
-    flowRowSchema.ctxMain = some (Gen.flowMainHeader, Gen.flowTypeColumn, Gen.flowRowTypeToMainArg) ∧
-    Gen.edgeH2F = pairsS [("from", "from_")] ∧ Gen.edgeF2H = pairsS [("from_", "from")] := by
+    Canon.sameMap Gen.flowF2H flowF2H ∧ Canon.sameMap Gen.flowBasicHeaderDict flowBasicHeaders ∧
+    Canon.sameMap Gen.flowRowTypeToMainArg flowMainArg ∧
+    (flowRowSchema.ctxMain.map fun (h, t, m) => (h, t, Canon.sortP m))
+      = some (Gen.flowMainHeader, Gen.flowTypeColumn, Canon.sortP Gen.flowRowTypeToMainArg) ∧
+    Canon.sameMap Gen.edgeH2F (pairsS [("from", "from_")]) ∧
+    Canon.sameMap Gen.edgeF2H (pairsS [("from_", "from")]) := by
   decide +kernel
+
+/-- … and first-match lookup in them does not depend on their order: keys are unique -/
+theorem remap_keys_unique :
+    Canon.uniqueKeys flowF2H = true ∧ Canon.uniqueKeys flowBasicHeaders = true ∧
+    Canon.uniqueKeys flowMainArg = true := by decide +kernel
 
 /-- the round trip as a Boolean (for the kernel-evaluated witnesses) -/
 def roundTrips (sch : Schema) (lay : Layout) (v : Val) : Bool :=
